@@ -322,7 +322,7 @@ def _merge_tol(case, rec):
 def clauses():
     return [
         Clause("convex_structure", _case(), _convex, quick=1500, thorough=12000, rule="ConvexPolyhedron", floors={"nontriangular": 0.3}),
-        Clause("sort_faces", _case(14), _sort, quick=750, thorough=6000, rule="Polyhedron.sort_faces", floors={"faces_disordered": 0.3}),
+        Clause("sort_faces", _case(14), _sort, quick=750, thorough=6000, rule="Polyhedron.sort_faces", floors={"faces_disordered": 0.2}),
         Clause("merge_faces", _case(14), _merge, quick=750, thorough=6000, rule="Polyhedron.merge_faces",
                floors={"nontriangular": 0.3, "winding:mixed": 0.25}),
         Clause("merge_faces_with_tolerances", _case(14), _merge_tol, quick=500, thorough=4000,
